@@ -29,7 +29,7 @@ from ..cfg import explore, canon_fact
 from ..rules import node_calls, event_facts, check_settles, settle_sites
 from ..mutate import mutate, remove_stmts, replace_expr, replace_stmt, parse_stmt, parse_expr
 from ..model import AnalysisError
-from ..x_guardflow import ClassEffects, guard_facts, has
+from ..x_guardflow import ClassEffects, guard_facts, has, settles_guarded, missing_effect
 from ..x_iostream import read_end_mode, take_and_clear, FAMILY, IO
 
 TECHNIQUE = "field-table vs. drain agreement, SETTLE lint, take-and-clear, guard dominance and path-sensitive typestate on close()"
@@ -240,7 +240,7 @@ def signal_closed(ck):
                 ck.ob("C13.drain-complete", fi, cn.ast, has(gf[cn.id], "%s is None" % path, False), "%s is collected only when set" % path)
 
     # settles
-    n = check_settles(ck, "C13.settle-guarded", fi, None, allow_safe_unguarded=True)
+    n = settles_guarded(ck, "C13.settle-guarded", fi, None, eff, allow_safe_unguarded=True)
     ck.floor("C13.settle-guarded", n, 2, "settle sites in _signal_closed")
     n_loop = 0
     for node, c, p, kind in ss:
@@ -289,7 +289,7 @@ def close_path(ck):
     rets = [x for x in q.walk_body(closed_fn.node) if isinstance(x, ast.Return)]
     ck.ob("C13.close-idempotent", closed_fn, closed_fn.node, len(rets) == 1 and q.dotted(rets[0].value) == "self._closed", "closed() reports the _closed flag", construct="closed() returns self._closed")
     # teardown only when not yet closed
-    teardown = cfg.stmt_nodes(lambda n: n.kind == "stmt" and (any(q.is_call(c, "self.close_fd", "self.io_loop.remove_handler", "self._finish_read", "self._read_from_buffer") for c in q.calls(n.ast)) or (isinstance(n.ast, ast.Assign) and ({"self._closed", "self.error"} & q.assigned_paths(n.ast)))))
+    teardown = cfg.stmt_nodes(lambda n: n.kind == "stmt" and (any(q.is_call(c, "self.close_fd", "self.io_loop.remove_handler", "self._finish_read", "self._read_from_buffer") for c in q.calls(n.ast)) or (isinstance(n.ast, ast.Assign) and ({"self._closed", "self.error"} & q.assigned_paths(n.ast))) or any(q.receiver(c) == "self" and q.call_attr(c) in eff.methods and q.call_attr(c) != "_signal_closed" and ({"self._closed", "self.error"} & set(eff.writes(q.call_attr(c)) or ())) and not q.is_call(c, "self.close_fd", "self._finish_read", "self._read_from_buffer", "self._find_read_pos", "self.fileno") for c in q.calls(n.ast))))
     ck.floor("C13.close-idempotent", len(teardown), 4, "teardown statements in close()")
     for n in teardown:
         ck.ob("C13.close-idempotent", fi, n.ast, has(gf[n.id], "self.closed()", False) or has(gf[n.id], "self._closed", False), "teardown happens only when the stream is not yet closed (a second close() changes nothing)")
@@ -297,7 +297,10 @@ def close_path(ck):
     ck.floor("C13.close-idempotent", len(fds), 1, "close_fd calls")
     # flag set after the fd was closed, on the same branch
     sets = cfg.stmt_nodes(lambda n: n.kind == "stmt" and isinstance(n.ast, ast.Assign) and "self._closed" in q.assigned_paths(n.ast) and isinstance(n.ast.value, ast.Constant) and n.ast.value.value is True)
-    ck.ob("C13.close-idempotent", fi, fi.node, len(sets) >= 1, "close() sets _closed = True", construct="_closed = True in close()")
+    if sets:
+        ck.ob("C13.close-idempotent", fi, fi.node, True, "close() sets _closed = True")
+    else:
+        missing_effect(ck, "C13.close-idempotent", fi, eff, {"self._closed"}, "close() sets _closed = True", "_closed = True in close()")
     fid = {n.id for n in fds}
     sid = {n.id for n in sets}
 
@@ -369,40 +372,68 @@ def close_path(ck):
     ep = [p for p in fi.params() if p != "self"]
     ck.need(ep, "close() lost its exc_info parameter")
     ep = ep[0]
-    errs = cfg.stmt_nodes(lambda n: n.kind == "stmt" and isinstance(n.ast, ast.Assign) and "self.error" in q.assigned_paths(n.ast))
-    ck.floor("C13.error-recorded", len(errs), 2, "assignments to self.error in close()")
-
-    def tr3(n, val):
-        kind, rec = val
-        if n in errs:
-            rec = True
-        if n.kind == "stmt" and isinstance(n.ast, ast.Assign) and q.assigned_paths(n.ast) == {ep}:
-            kind = "sys"
-        return (kind, rec)
-
-    def edge3(n, k, val):
-        kind, rec = val
-        if n.kind == "test" and k in ("true", "false"):
-            t, pol = canon_fact(n.ast, k == "true")
-            if t == ep and kind == "?":
-                kind = "given" if pol else "none"
-            elif t.startswith("isinstance(%s," % ep) and pol and kind == "given":
-                kind = "exc"
-            elif t.startswith("any(") and kind == "sys":
-                kind = "sys-some" if pol else "sys-none"
-        return (kind, rec)
-
-    seen3 = explore(cfg, ("?", False), tr3, lambda t: False, edge_transfer=edge3, follow_exc=False)
+    hosts = []  # (function, its exc_info name, initial kind, node ids where the state is read)
+    if cfg.stmt_nodes(lambda n: n.kind == "stmt" and isinstance(n.ast, ast.Assign) and "self.error" in q.assigned_paths(n.ast)):
+        hosts.append((fi, ep, "?", [sg.id for sg in sigs]))
+    else:
+        # the recording may live in a same-class helper that receives exc_info
+        for hn, c in cfg.find(lambda x: isinstance(x, ast.Call) and isinstance(x.func, ast.Attribute) and q.dotted(x.func.value) == "self" and x.func.attr in eff.methods):
+            w = eff.writes(c.func.attr)
+            if w is None or "self.error" not in w:
+                continue
+            pos = [i for i, a_ in enumerate(c.args) if q.dotted(a_) == ep]
+            ck.need(len(pos) == 1 and len(eff.methods[c.func.attr]) == 1, "close() records the error through %s() in a shape that cannot be followed" % c.func.attr)
+            h = eff.methods[c.func.attr][0]
+            hps = [p for p in h.params() if p != "self"]
+            ck.need(pos[0] < len(hps), "cannot bind exc_info in %s" % h.qualname)
+            init_kind = "given" if has(gf[hn.id], ep, True) else "?"
+            ck.ob("C13.error-recorded", fi, c, hn.id not in _reach(cfg, {sg.id for sg in sigs}), "the error is recorded before the pending operations are failed")
+            hosts.append((ck.use(h), hps[pos[0]], init_kind, [h.cfg.exit.id]))
+    if not hosts:
+        missing_effect(ck, "C13.error-recorded", fi, eff, {"self.error"}, "close() stores the exception it was given in self.error", "close(): self.error never assigned")
     kinds = set()
-    for sgn in sigs:
-        for _f, (kind, rec) in seen3.get(sgn.id, ()):
-            kinds.add((kind, rec))
-    bad = sorted(k for k, rec in kinds if k in ("exc", "sys-some") and not rec)
-    ck.ob("C13.error-recorded", fi, fi.node, not bad and any(k == "exc" and rec for k, rec in kinds), "when close() is given an exception (instance or exc_info tuple, or the current exception) self.error holds it before the pending operations are failed (states %s)" % sorted(kinds), construct="close(): error recorded before _signal_closed %s" % bad)
-    for n in errs:
-        v = n.ast.value
-        ok = q.dotted(v) == ep or (isinstance(v, ast.Subscript) and q.dotted(v.value) == ep and q.is_const(v.slice, 1))
-        ck.ob("C13.error-recorded", fi, n.ast, ok, "self.error is the exception itself (exc_info or exc_info[1])")
+    n_err = 0
+    for hf, hep, init_kind, at_ids in hosts:
+        hcfg = hf.cfg
+        errs = hcfg.stmt_nodes(lambda n: n.kind == "stmt" and isinstance(n.ast, ast.Assign) and "self.error" in q.assigned_paths(n.ast))
+        n_err += len(errs)
+        sysvars: Set[str] = set()
+        for st_ in q.walk_body(hf.node):
+            if isinstance(st_, ast.Assign) and q.is_call(st_.value, "sys.exc_info"):
+                sysvars |= {p_ for p_ in q.assigned_paths(st_) if "." not in p_}
+
+        def tr3(n, val, errs=errs):
+            kind, rec = val
+            if n in errs:
+                rec = True
+            if n.kind == "stmt" and isinstance(n.ast, ast.Assign) and q.is_call(n.ast.value, "sys.exc_info"):
+                kind = "sys"
+            return (kind, rec)
+
+        def edge3(n, k, val, hep=hep):
+            kind, rec = val
+            if n.kind == "test" and k in ("true", "false"):
+                t, pol = canon_fact(n.ast, k == "true")
+                if t == hep and kind == "?":
+                    kind = "given" if pol else "none"
+                elif t.startswith("isinstance(%s," % hep) and pol and kind == "given":
+                    kind = "exc"
+                elif t.startswith("any(") and kind == "sys":
+                    kind = "sys-some" if pol else "sys-none"
+            return (kind, rec)
+
+        seen3 = explore(hcfg, (init_kind, False), tr3, lambda t: False, edge_transfer=edge3, follow_exc=False)
+        for nid in at_ids:
+            for _f, (kind, rec) in seen3.get(nid, ()):
+                kinds.add((kind, rec))
+        for n in errs:
+            v = n.ast.value
+            ok = q.dotted(v) == hep or (isinstance(v, ast.Subscript) and q.dotted(v.value) in ({hep} | sysvars) and q.is_const(v.slice, 1))
+            ck.ob("C13.error-recorded", hf, n.ast, ok, "self.error is the exception itself (exc_info, exc_info[1] or sys.exc_info()[1])")
+    if hosts:
+        ck.floor("C13.error-recorded", n_err, 2, "assignments to self.error on the close path")
+        bad = sorted(k for k, rec in kinds if k in ("exc", "sys-some") and not rec)
+        ck.ob("C13.error-recorded", fi, fi.node, not bad and any(k == "exc" and rec for k, rec in kinds), "when close() is given an exception (instance or exc_info tuple, or the current exception) self.error holds it before the pending operations are failed (states %s)" % sorted(kinds), construct="close(): error recorded before _signal_closed %s" % bad)
 
     # who writes _closed
     n_w = 0
